@@ -583,3 +583,49 @@ def deep_mentions(t, pred, loops, _seen=None):
             if v is not None and deep_mentions(v, pred, loops, seen):
                 return True
     return False
+
+
+# --------------------------------------------------------------------------
+# element-wise view of a comprehension / generator (idiom independent)
+
+ELEM = atom(("sym", "element"))
+
+
+def comp_view(t):
+    """For a comprehension with one generator and no filter return (element term over the symbol ELEM, sequence, count):
+    `f(s[i]) for i in range(n)` and `f(e) for e in s[:n]` / `for e in s` give the same view.  None if not of that shape."""
+    a = t.single_atom() if isinstance(t, R) else None
+    if a is None or a[0] != "comp" or len(a[2]) != 1 or len(a[3]) != 1 or a[4]:
+        return None
+    elt, it = a[2][0], a[3][0]
+    ia = it.single_atom()
+    idxs = [x for x in T.walk(elt) if x[0] == "idx"]
+    iters = [x for x in T.walk(elt) if x[0] == "iter"]
+    if ia is not None and ia[0] == "call" and ia[1] == "range" and len(ia[2]) == 1 and idxs and not iters:
+        ix = set(idxs)
+        if len(ix) != 1:
+            return None
+        i = atom(next(iter(ix)))
+        bases = {x[1] for x in T.walk(elt) if x[0] == "sub" and x[2] == i}
+        if len(bases) != 1:
+            return None
+        s = next(iter(bases))
+        e2 = T.subst(elt, lambda z: ELEM if z[0] == "sub" and z[1] == s and z[2] == i else None)
+        if T.mentions(e2, lambda z: z[0] == "idx"):
+            return None
+        return e2, s, ia[2][0]
+    if iters and not idxs:
+        its = set(iters)
+        if len(its) != 1 or next(iter(its))[1] != it:
+            return None
+        e2 = T.subst(elt, lambda z: ELEM if z[0] == "iter" and z[1] == it else None)
+        s, n = it, atom(("call", "len", (it,), ()))
+        sa = ia
+        if sa is not None and sa[0] == "sub":
+            sl = sa[2].single_atom()
+            if sl is not None and sl[0] == "slice" and sl[1] in (T.NONE, const(0)) and sl[3] == T.NONE and sl[2] != T.NONE:
+                s = sa[1]
+                k = sl[2]
+                n = k if not (k.is_const() and k.const_value() < 0) else atom(("call", "len", (s,), ())) + k
+        return e2, s, n
+    return None
